@@ -404,10 +404,12 @@ type bfsScenario struct {
 	// of a third party deleting an ObjectSetPhase object
 	Conflicts    int `json:"conflicts"`
 	PhaseDeletes int `json:"phaseDeletes"`
+	// Restarts: budget of operator crashes before request i of an ObjectSet / ObjectSetPhase pass
+	Restarts int `json:"restarts"`
 }
 
 func (sc bfsScenario) name() string {
-	return fmt.Sprintf("delegated phases=%d mask=%03b statuses=%d pauses=%d delete=%v holds=%v conflicts=%d phaseDeletes=%d", sc.N, sc.Mask, len(sc.Classes), sc.Pauses, sc.Delete, sc.Holds, sc.Conflicts, sc.PhaseDeletes)
+	return fmt.Sprintf("delegated phases=%d mask=%03b statuses=%d pauses=%d delete=%v holds=%v conflicts=%d phaseDeletes=%d restarts=%d", sc.N, sc.Mask, len(sc.Classes), sc.Pauses, sc.Delete, sc.Holds, sc.Conflicts, sc.PhaseDeletes, sc.Restarts)
 }
 
 func bfsSystem(sc bfsScenario) *world.System {
@@ -421,6 +423,7 @@ func bfsSystem(sc bfsScenario) *world.System {
 			w.Budget["delete"] = 1
 			w.Budget["hold"] = 1
 			w.Budget["conflict"] = sc.Conflicts
+			w.Budget["restart"] = sc.Restarts
 			w.Budget["phase-delete"] = sc.PhaseDeletes
 			return w
 		},
@@ -430,6 +433,7 @@ func bfsSystem(sc bfsScenario) *world.System {
 			evs = append(evs, osw.ReleaseEvents(w)...)
 			evs = append(evs, osw.GCEvent(w)...)
 			evs = append(evs, osw.ConflictEventsAll(w)...)
+			evs = append(evs, osw.CrashEvents(w)...)
 			if w.Budget["phase-delete"] > 0 {
 				for _, k := range w.S.SortedKeys() {
 					if k.Kind == "ObjectSetPhase" && !kmodel.Terminating(w.S.Objs[k].Content) {
@@ -478,6 +482,8 @@ func bfsScenarios(quick bool) []bfsScenario {
 		{N: 2, Mask: 0b10, Classes: two, Delete: true, Holds: []string{"g"}},
 		{N: 2, Mask: 0b11, Classes: []string{"ready"}, Pauses: 1, Delete: true},
 		{N: 2, Mask: 0b10, Classes: []string{"ready"}, Delete: true, Conflicts: 1, PhaseDeletes: 1},
+		{N: 2, Mask: 0b10, Classes: []string{"ready"}, Delete: true, Restarts: 1},
+		{N: 2, Mask: 0b01, Classes: []string{"ready"}, Delete: true, Restarts: 1},
 	}
 	if !quick {
 		out = append(out,
@@ -491,7 +497,7 @@ func bfsScenarios(quick bool) []bfsScenario {
 
 func runBFS(o checks.Opts) *report.Report {
 	rep := report.New("C15", "bfs")
-	rep.Rule = "explicit-state BFS over delegated layouts: reconcile(ObjectSet, each ObjectSetPhase) in any order, workload status changes, user pause/unpause and delete (with foreign finalizers on some objects), finalizer release, garbage collector, a foreign write landing before write i of a pass, a third party deleting a phase object; on every ObjectSet pass the structural monitor (exactly the expected ObjectSetPhase objects, carrying the phase's objects, probes, revision, previous list, paused state and class) and the gating (C03), teardown-order (C04) and status-claim (C06) monitors"
+	rep.Rule = "explicit-state BFS over delegated layouts: reconcile(ObjectSet, each ObjectSetPhase) in any order, workload status changes, user pause/unpause and delete (with foreign finalizers on some objects), finalizer release, garbage collector, a foreign write landing before write i of a pass, a third party deleting a phase object, an operator crash before request i of a pass; on every ObjectSet pass the structural monitor (exactly the expected ObjectSetPhase objects, carrying the phase's objects, probes, revision, previous list, paused state and class) and the gating (C03), teardown-order (C04) and status-claim (C06) monitors"
 	scs := bfsScenarios(o.Quick())
 	rep.Bounds["systems"] = len(scs)
 	for i, sc := range scs {
